@@ -18,11 +18,18 @@ import random
 from .. import tablekit as tk
 
 DTYPES = ["int", "flt", "str", "bool", "time", "cat"]
-IKINDS = ["int64", "int64", "range", "int32"]
+IKINDS = ["int64", "int64", "range", "range-tight", "int32"]
 MODES = ["clean", "clean", "clean", "newcol_birth", "conflict_initial", "sloppy_initial", "conflict_birth", "sloppy_birth",
          "missing_rows_initial", "nonew_initial", "partial_birth", "zero_pop",
-         "xdtype_initial", "xdtype_initial", "xdtype_birth", "xdtype_birth"]
-OVERLAP = ("conflict_initial", "sloppy_initial", "conflict_birth", "sloppy_birth", "xdtype_initial", "xdtype_birth")
+         "xdtype_initial", "xdtype_initial", "xdtype_birth", "xdtype_birth",
+         "null_initial", "null_initial", "null_birth", "null_birth"]
+OVERLAP = ("conflict_initial", "sloppy_initial", "conflict_birth", "sloppy_birth", "xdtype_initial", "xdtype_birth",
+           "null_initial", "null_birth")
+# lesson 15 - null is a value: two components supply initial values for one column and one side (or both) is null
+NULL_DTYPES = ["flt", "time", "str", "cat", "obj"]          # NaN, NaT, None/NaN (str), NaN (category), None (object: initial creation only)
+NULL_PATTERNS = ["all", "some", "one"]                       # null for everybody / for some / for one of the new simulants
+NULL_WHO = ["first", "second", "both-same", "both-differ"]   # which provider (in the order they RUN) supplies the nulls
+NULL_ORDERS = ["owner-first", "other-first"]                 # the registered creator of the column runs first / second
 # a second component re-supplying a column with ANOTHER dtype than the column holds: (column dtype, update dtype)
 XPAIRS = [("int", "flt"), ("int", "i32"), ("int", "bool"), ("flt", "int"), ("flt", "f32"), ("bool", "int"), ("bool", "flt"),
           ("str", "int"), ("str", "cat"), ("str", "obj"), ("cat", "str"), ("cat", "obj")]
@@ -50,13 +57,25 @@ class C13(tk.TableProp):
         return ([self._gen(rng, "quick", mode=m) for m in MODES[2:]] + [self._gen(rng, "quick", mode="clean", pop=p) for p in (0, 1)]
                 + [self._gen(rng, "quick", mode="clean", nocol=k) for k in ("builder", "component", "ledger", "all")]
                 + [self._gen(rng, "quick", mode=m, xpair=p, xrel=r, pop=3) for p in XPAIRS for r in XRELS
-                   for m in ("xdtype_initial", "xdtype_birth")])
+                   for m in ("xdtype_initial", "xdtype_birth")]
+                + [self._gen(rng, "quick", mode="null_initial", pop=(1 if (i + k) % 5 == 0 else 4),
+                             nullspec={"dtype": d, "pattern": pt, "who": w, "order": o, "nullobj": ["none", "nan"][(i + k) % 2]})
+                   for i, d in enumerate(NULL_DTYPES) for k, (pt, w) in enumerate((pt, w) for pt in NULL_PATTERNS for w in NULL_WHO)
+                   for o in NULL_ORDERS if (pt != "one" or o == "owner-first")]
+                + [self._gen(rng, "quick", mode="null_birth", pop=2, nullspec={"dtype": d, "pattern": pt, "who": w, "order": "owner-first", "nullobj": "nan"})
+                   for d in NULL_DTYPES[:4] for pt in NULL_PATTERNS for w in NULL_WHO])
 
     def generate(self, rng, i, tier):
         return self._gen(rng, tier)
 
-    def _gen(self, rng, tier, mode=None, pop=None, nocol=None, xpair=None, xrel=None):
+    def _gen(self, rng, tier, mode=None, pop=None, nocol=None, xpair=None, xrel=None, nullspec=None):
         mode = mode or rng.choice(MODES)
+        ns = None
+        if mode.startswith("null_"):
+            ns = dict(nullspec) if nullspec else {
+                "dtype": rng.choice(NULL_DTYPES if mode == "null_initial" else NULL_DTYPES[:4]), "pattern": rng.choice(NULL_PATTERNS + ["all"]),
+                "who": rng.choice(NULL_WHO + ["first"]), "nullobj": rng.choice(["none", "nan"]),
+                "order": rng.choice(NULL_ORDERS + ["owner-first"]) if mode == "null_initial" else "owner-first"}
         ncomp = rng.randint(1, 3)
         if mode in OVERLAP:
             ncomp = max(ncomp, 2)
@@ -70,6 +89,11 @@ class C13(tk.TableProp):
                 dt[c] = d
             if mode.startswith("xdtype"):
                 cols[0][1] = xpair[0]             # any component's first column may be the one that is re-supplied
+            if ns:
+                cols[0][1] = dt[cols[0][0]] = ns["dtype"]
+                if ns["order"] == "other-first" and len(cols) < 2:          # its creator runs second and must still bring something new
+                    cols.append([next(names), rng.choice(DTYPES)])
+                    dt[cols[1][0]] = cols[1][1]
             comps.append({"name": f"c{j}", "cols": cols, "views": [], "requires": [comps[j - 1]["cols"][0][0]] if j else []})
         # views: the component's own columns (+ the first column of the previous component for the overlap modes, + zz)
         for j, c in enumerate(comps):
@@ -102,9 +126,13 @@ class C13(tk.TableProp):
             """the update made by component j's initializer for `labels`"""
             c = comps[j]
             rows = list(labels)
-            if rng.random() < 0.4:
+            r = rng.random()
+            if r < 0.3:
                 rng.shuffle(rows)
-            cols = [[x, d, tk.value_tokens(d, rng, len(rows), allow_null=d != "int" and rng.random() < 0.3)] for x, d in c["cols"]]
+            elif r < 0.55:
+                rows.reverse()                    # with a range kind: a DESCENDING range object (reaching 0 at the initial creation)
+            cols = [[x, d, tk.value_tokens(d, rng, len(rows), allow_null=d != "int" and rng.random() < 0.3,
+                                           nulls=rng.choice([None] * 8 + ["all", "one"]))] for x, d in c["cols"]]
             if mode.startswith("xdtype"):
                 x, d = c["cols"][0]
                 cols[0][2] = ([f"s{rng.randint(0, 9)}" for _ in rows] if (d, xpair[1]) == ("str", "int")
@@ -123,9 +151,38 @@ class C13(tk.TableProp):
                     col[2].pop(k)
             rng.shuffle(cols)
             act = {"a": "upd", "view": 10 + j, "form": "D", "rows": rows, "cols": cols, "catch": False, "ikind": rng.choice(IKINDS)}
+            if ns:
+                act["nullobj"] = ns["nullobj"]
             if len(cols) == 1 and rng.random() < 0.3:
                 act["form"] = "S"
             return act
+
+        def null_pair(d, labels):
+            """what the provider that runs first / second supplies for the shared column, by label: the two differ only where
+            one side is null (`who` first / second), not at all (both-same), or in one cell of two partly-null sets (both-differ)"""
+            full = tk.value_tokens(d, rng, len(labels), allow_null=False)
+            holes = tk.value_tokens(d, rng, len(labels), nulls=ns["pattern"])
+            holes = [h if h == "n" else f for h, f in zip(holes, full)]
+            if ns["who"] == "first":
+                t1, t2 = holes, full
+            elif ns["who"] == "second":
+                t1, t2 = full, holes
+            elif ns["who"] == "both-same":
+                t1, t2 = holes, list(holes)
+            else:
+                t1, t2 = holes, list(holes)
+                k = rng.randrange(len(labels))
+                t2[k] = full[k] if t1[k] == "n" else "n"
+            return dict(zip(labels, t1)), dict(zip(labels, t2))
+
+        def with_col(act, name, d, by_label):
+            """the fill `act` with the shared column `name` set to (or added with) the given values"""
+            cols = [c for c in act["cols"] if c[0] != name] + [[name, d, [by_label[r] for r in act["rows"]]]]
+            rng.shuffle(cols)
+            return dict(act, form="D", cols=cols)
+
+        def null_kind(birth):
+            return f"null:{'birth' if birth else 'initial'}:{ns['dtype']}:{ns['pattern']}:{ns['who']}:{ns['order']}"
 
         def extras(labels, birth):
             """what a well-behaved initializer may do besides filling its columns: look at the population, read through the
@@ -135,8 +192,11 @@ class C13(tk.TableProp):
             if rng.random() < 0.25:
                 out.append({"a": "pop", "untracked": rng.random() < 0.5, "via": rng.choice(["sim", "manager", "default"]),
                             "mutate": rng.random() < 0.5})
-            if rng.random() < 0.25:
-                out.append({"a": "get", "view": 30, "idx": list(labels) + ([0] if labels and labels[0] > 0 else []), "q": ["T"],
+            if rng.random() < 0.3:
+                last = labels[-1] if labels else -1
+                idx = rng.choice([list(labels) + ([0] if labels and labels[0] > 0 else []), list(labels)[::-1], list(range(last, -1, -1)),
+                                  list(range(last, -1, -2)), list(range(0, last + 1, 2))])
+                out.append({"a": "get", "view": 30, "idx": idx, "q": ["T"],
                             "noq": rng.random() < 0.5, "ikind": rng.choice(IKINDS), "mutate": rng.random() < 0.5})
             if birth and labels and labels[0] > 0 and rng.random() < 0.2:
                 out.append({"a": "upd", "view": 0, "form": "S", "rows": [rng.randrange(labels[0])], "catch": True,
@@ -204,8 +264,33 @@ class C13(tk.TableProp):
         init = {}
         labels0 = list(range(pop))
         bad_j = rng.randrange(1, ncomp) if ncomp > 1 else 0
+        null_init = {}
+        if ns and ns["order"] == "other-first":
+            o, b = comps[bad_j - 1], comps[bad_j]
+            b["requires"], o["requires"] = list(o["requires"]), [b["cols"][0][0]]      # the creator of the column waits for the other one
+        if mode == "null_initial" and pop:
+            oj, bj = bad_j - 1, bad_j
+            oc, d = comps[oj]["cols"][0]
+            first_j, second_j = (oj, bj) if ns["order"] == "owner-first" else (bj, oj)
+            t1, t2 = null_pair(d, labels0)
+            a1 = with_col(fill(first_j, labels0), oc, d, t1)                            # all its columns are new: accepted
+            a2 = self._reorder(with_col(fill(second_j, labels0), oc, d, t2), labels0)    # brings new column(s) of its own as well
+            a2["catch"], a2["kind"] = rng.random() < 0.5, null_kind(False)
+            null_rejected = [tk.norm_tok(t1[r]) for r in labels0] != [tk.norm_tok(t2[r]) for r in labels0]
+            null_init = {first_j: [a1], second_j: [a2]}
+            if a2["catch"] and null_rejected:                                            # then the component does (the rest of) its own job
+                own = fill(second_j, labels0)
+                own = dict(own, form="D", cols=[c for c in own["cols"] if c[0] != oc])
+                if own["cols"]:
+                    null_init[second_j].append(own)
+            for r in labels0:
+                given[(oc, r)] = t1[r]
         for j in range(ncomp):
             acts = []
+            if j in null_init:
+                acts = null_init[j]
+                init[f"c{j}"] = acts
+                continue
             if mode in ("conflict_initial", "sloppy_initial") and j == bad_j and pop:
                 a = fill(j, labels0, overlap=overlap_of(j, same=(mode == "sloppy_initial")))
                 a = self._reorder(a, labels0)                     # `equals` compares positionally: keep the table's order
@@ -230,7 +315,8 @@ class C13(tk.TableProp):
             init[f"c{j}"] = acts
         aborted = (mode in ("conflict_initial",) and pop > 0) or (mode == "missing_rows_initial" and pop > 1) or \
                   (mode == "xdtype_initial" and pop > 0 and not init[f"c{bad_j}"][0]["catch"]) or \
-                  (mode == "nonew_initial" and pop > 0 and not init[f"c{bad_j}"][1]["catch"])
+                  (mode == "nonew_initial" and pop > 0 and not init[f"c{bad_j}"][1]["catch"]) or \
+                  (mode == "null_initial" and pop > 0 and null_rejected and not a2["catch"])
         hooks = {}
         n = pop
         special_done = False
@@ -248,9 +334,22 @@ class C13(tk.TableProp):
                                 labels = list(range(n, n + k))
                                 fills = {}
                                 stop = False
+                                null_now = mode == "null_birth" and not special_done and k > 0
+                                if null_now:
+                                    oc, d = comps[bad_j - 1]["cols"][0]
+                                    t1, t2 = null_pair(d, labels)
                                 for q in range(ncomp):
                                     special = (not special_done and q == bad_j and k > 0 and mode.endswith("_birth"))
-                                    if special and mode == "newcol_birth":
+                                    if null_now and q == bad_j - 1:            # the creator of the column runs first …
+                                        fills[f"c{q}"] = extras(labels, True) + [with_col(fill(q, labels), oc, d, t1)]
+                                    elif null_now and q == bad_j:              # … then another component supplies the column again
+                                        a = with_col(fill(q, labels), oc, d, t2)
+                                        a["catch"], a["kind"] = rng.random() < 0.5, null_kind(True)
+                                        # the code that exists: a conflict only if the column holds something non-null for these simulants
+                                        rejected = any(t1[r] != "n" for r in labels) and any(tk.norm_tok(t1[r]) != tk.norm_tok(t2[r]) for r in labels)
+                                        fills[f"c{q}"] = [a] + ([fill(q, labels)] if a["catch"] and rejected else [])
+                                        stop = rejected and not a["catch"]
+                                    elif special and mode == "newcol_birth":
                                         a = fill(q, labels, extra_zz=True)
                                         a["catch"] = rng.random() < 0.5
                                         fills[f"c{q}"] = [a] + ([fill(q, labels)] if a["catch"] else [])
@@ -296,8 +395,9 @@ class C13(tk.TableProp):
                                 # whole-table view (or: the tracked column through the manager's view vs the whole-table view), a
                                 # read in between, then U again verbatim
                                 rows = rng.sample(range(n), rng.randint(1, min(n, 3)))
-                                if rng.random() < 0.6:
-                                    x, d = rng.choice(comps[j]["cols"])
+                                plain = [c for c in comps[j]["cols"] if c[1] != "obj"]
+                                if plain and rng.random() < 0.6:
+                                    x, d = rng.choice(plain)
                                     v, toks = 10 + j, tk.value_tokens(d, rng, len(rows), allow_null=False)
                                     alt = tk.value_tokens(d, rng, 1, allow_null=False)[0]
                                     if d == "bool":
@@ -319,8 +419,12 @@ class C13(tk.TableProp):
                                 acts.append({"a": "pop", "untracked": rng.random() < 0.5, "via": rng.choice(["sim", "manager", "default"]),
                                              "mutate": rng.random() < 0.5})
                             elif r < 0.68:
-                                acts.append({"a": "get", "view": rng.choice([30, 10]), "idx": "event", "q": ["T"], "noq": rng.random() < 0.5,
-                                             "mutate": rng.random() < 0.5})
+                                kk = rng.randint(1, max(1, n))                 # the listener's index as handed over, or sliced the way components do
+                                acts.append({"a": "get", "view": rng.choice([30, 10]), "q": ["T"], "noq": rng.random() < 0.5, "mutate": rng.random() < 0.5,
+                                             "idx": rng.choice(["event", "event", {"from": "event", "slices": [[None, None, -1]]},
+                                                                {"from": "event", "slices": [[None, kk, None], [None, None, -1]]},
+                                                                {"from": "event", "slices": [[None, None, rng.choice([2, -2, -3])]]},
+                                                                {"from": "pop", "slices": [[None, None, -1]]}])})
                             elif r < 0.85 and n:
                                 rows = rng.sample(range(n), rng.randint(1, min(n, 3)))
                                 acts.append({"a": "upd", "view": 0, "form": "S", "rows": rows,
@@ -328,8 +432,10 @@ class C13(tk.TableProp):
                             elif n and comps[j]["cols"]:
                                 rows = rng.sample(range(n), rng.randint(1, min(n, 3)))
                                 x, d = rng.choice(comps[j]["cols"])
-                                acts.append({"a": "upd", "view": 10 + j, "form": "D", "rows": rows,
-                                             "cols": [[x, d, tk.value_tokens(d, rng, len(rows), allow_null=False)]]})
+                                if d == "obj":
+                                    continue          # (an object column that was written once reads back as `str`: only its creation is exercised)
+                                acts.append({"a": "upd", "view": 10 + j, "form": rng.choice(["D", "D", "S"]), "rows": rows, "ikind": rng.choice(IKINDS),
+                                             "cols": [[x, d, tk.value_tokens(d, rng, len(rows), allow_null=False, nulls=rng.choice([None, None, None, "all", "one"]))]]})
                             if aborted:
                                 break
                         if acts:
@@ -362,6 +468,7 @@ class C13(tk.TableProp):
         start = clock.get("start", 0) if clock["kind"] == "simple" else tk.T0
         pre = "i" if clock["kind"] == "simple" else "t"
         handed = set()
+        supplied = {}          # creation no -> {(simulant, column): (token, component)} from the updates accepted so far in that creation
         creations = {}
         cur_event = None
         probes = [c["name"] for c in case["comps"]] + [l for c in case["comps"] for l in c.get("ledgers", [])]
@@ -403,7 +510,7 @@ class C13(tk.TableProp):
                     fail("initializer-wrong-user-data", f"log {i}: initializer of {e['comp']} got user_data {e['user']}, expected {want_user}")
                 self._existing(i, ce, e.get("table"), fail, during=True)
             elif t == "upd" and cr is not None:
-                self._creation_update(i, e, prev, cr, fail)
+                self._creation_update(i, e, prev, cr, fail, supplied.setdefault(cr.get("no"), {}))
             elif t == "endcreate":
                 c = creations.get(e["no"])
                 if c is None:
@@ -494,8 +601,12 @@ class C13(tk.TableProp):
                 fail("existing-dtype-changed", f"log {i}: dtype of {name} was {dt} before creation {ce['no']}, is {now[1]} afterwards")
 
     @staticmethod
-    def _creation_update(i, e, prev, cr, fail):
-        """rules for updates made by initializers: new columns only at the initial creation, conflicting values rejected"""
+    def _creation_update(i, e, prev, cr, fail, supplied):
+        """rules for updates made by initializers: new columns only at the initial creation, conflicting values rejected.
+        NULL IS A VALUE (lesson 15): while the initial population is built a column is in the table only because another
+        component has supplied it, so a null cell IS that component's initial value and null vs value is a conflict. At a
+        birth the table cannot tell "not supplied yet" from "supplied null"; there only non-null held cells are judged;
+        `supplied` (who has supplied what in this creation) is used to COUNT the null-then-value case, not to judge it."""
         spec = e["spec"]
         if spec["form"] == "X" or prev is None:
             return
@@ -510,14 +621,39 @@ class C13(tk.TableProp):
             fail("new-column-at-birth-accepted", f"log {i}: update {tk.upd_line(spec)} brings new columns {new} at a birth and was accepted")
         if not initial and e["table"] is not None and [c[0] for c in e["table"]["cols"]] != [c[0] for c in prev["cols"]]:
             fail("birth-added-columns", f"log {i}: columns changed by {tk.upd_line(spec)} at a birth")
+
+        def differ(w, v):
+            if w == "n" or v == "n":
+                return w != v
+            return not tk.same_value(tk.norm_tok(w), tk.norm_tok(v))
+
         # conflicting values: the column already holds something for these simulants and the update says otherwise
         for (name, dt, toks), n in zip(spec["cols"], names):
             if n not in have:
                 continue
-            diff = [(r, tk.cell(prev, r, n), v) for r, v in zip(spec["rows"], toks)
-                    if r in prev["rows"] and tk.cell(prev, r, n) != "n" and not tk.same_value(tk.norm_tok(tk.cell(prev, r, n)), tk.norm_tok(v))]
+            pairs = [(r, tk.cell(prev, r, n), v) for r, v in zip(spec["rows"], toks) if r in prev["rows"]]
+            if initial and n != "tracked":
+                diff = [p for p in pairs if differ(p[1], p[2])]
+                if diff and ok:
+                    nulls = any(p[1] == "n" or p[2] == "n" for p in diff)
+                    fail("conflicting-values-accepted", f"log {i}: while the initial population is built, update {tk.upd_line(spec)} supplies "
+                         f"{'(null vs value) ' if nulls else ''}other initial values {diff[:3]} (simulant, held, supplied) for column {n}, which "
+                         f"another component has already supplied, and was accepted")
+                continue
+            diff = [p for p in pairs if p[1] != "n" and differ(p[1], p[2])]
             if diff and ok:
                 fail("conflicting-values-accepted", f"log {i}: update {tk.upd_line(spec)} contradicts existing values {diff[:3]} in column {n} and was accepted")
+            # No opinion (coordinator's decision, "observed, not findings" in the report): at a birth the new rows exist as null
+            # cells before any initializer runs, so when every value the earlier provider wrote for these simulants is null the
+            # table - and the property, which needs two VALUES - cannot tell "supplied null" from "not supplied yet"; the code
+            # accepts a later value there. Counted in the distribution (`observed:birth-null-then-value-accepted`), not judged.
+            if ok and not diff and any(w == "n" and v != "n" and supplied.get((r, n), ("", None))[0] == "n"
+                                       and supplied[(r, n)][1] != e.get("comp") for r, w, v in pairs):
+                e["observed_null_then_value"] = True
+        if ok:
+            for (name, dt, toks), n in zip(spec["cols"], names):
+                for r, v in zip(spec["rows"], toks):
+                    supplied.setdefault((r, n), (v, e.get("comp")))
 
     # ------------------------------------------------------------------ reporting
     def nontrivial(self, case, obs):
@@ -545,6 +681,8 @@ class C13(tk.TableProp):
                     t.append("exc:" + e["out"][4:])
             elif e["t"] == "endcreate" and not e["ok"]:
                 t.append("creation-aborted")
+            if e.get("observed_null_then_value"):
+                t.append("observed:birth-null-then-value-accepted")
         if any(e["t"] == "upd" and cr is None and e["spec"]["view"] == 0 for _, e, _, cr in tk.walk(obs)):
             t.append("untracking-between-births")
         t += ["model-err:" + k for k in obs.get("model_errs", [])]
